@@ -381,6 +381,10 @@ def gen_task(loader, check, what, replay_on=True, **kw):
         # "a jump records its 32-bit target": the conversion-context contract of C03, all eight source types
         from . import c03
         c03.gen_callbacks(loader, check, c03.T8, ["Variable"], replay_on, sections=["jump"])
+    elif what == "load_frame":
+        # a load keeps the width and signedness its spelling gave it: a cast applied to it builds a new node, it never re-types the load
+        from . import c03
+        c03.gen_callbacks(loader, check, c03.T8, ["MemLoad"], replay_on, sections=["cast_calls"])
     else:
         {"alias": gen_alias, "imm_mem": gen_imm_mem, "access": gen_access_state}[what](loader, check, replay_on)
 
@@ -391,8 +395,9 @@ def gen_catalog(loader, check, replay_on=True):
 
 
 def generate_reduced(loader, check):
-    check.ob_filter = r"#binding|#total|#access|#rejected|jump#"
+    check.ob_filter = r"#binding|#total|#access|#rejected|jump#|#modifies"
     gen_task(loader, check, "jump", False)
+    gen_task(loader, check, "load_frame", False)
     gen_letter_regs(loader, check, False, letters=["R", "P", "N"])
     gen_explicit(loader, check, False, "quick")
     gen_alias(loader, check, False)
@@ -409,8 +414,8 @@ def run(check: Check):
                 "reads the old or .new value of exactly that register; WRITE_REG(bundle, op, v) writes its .new value; LOADW/STOREW as in RzIL")
     check.assume("complete finite enumeration of the operand spellings of the grammar terminals (REG_TYPE x access spellings x {V, N}); explicit "
                  "registers: quick tier uses 5 first numbers x {single, 3 pair partners}, the thorough tier all 20 x 21 spellings")
-    check.ob_filter = r"#binding|#total|#access|#rejected|jump#"
-    tasks = [{"what": "letters", "letters": [l]} for l in "CNPRMQV"] + [{"what": w} for w in ("explicit", "alias", "imm_mem", "access", "jump")]
+    check.ob_filter = r"#binding|#total|#access|#rejected|jump#|#modifies"
+    tasks = [{"what": "letters", "letters": [l]} for l in "CNPRMQV"] + [{"what": w} for w in ("explicit", "alias", "imm_mem", "access", "jump", "load_frame")]
     check.run_parallel("contracts.c07", "gen_task", tasks, workers=WORKERS, sink_attrs={"ob_filter": check.ob_filter})
     check.run_parallel("contracts.c07", "gen_catalog", [{}], workers=1, sink_attrs={"ob_filter": check.ob_filter})
     run_mutants(check, MUTANTS, "contracts.c07", "generate_reduced")
